@@ -92,6 +92,18 @@ class Ctx:
         self.root = self.model.root
         self.paths_enumerated = 0
 
+    def with_extra(self, sources: Dict[str, str]) -> "Ctx":
+        """A context over the same tree plus synthetic modules (positive controls of expected-zero rules)."""
+        c = Ctx.__new__(Ctx)
+        c.tier = self.tier
+        c.model = Model(self.root, extra_sources=sources)
+        c.env = Env(c.model)
+        c._fx = None
+        c._cfgs = {}
+        c.root = self.root
+        c.paths_enumerated = 0
+        return c
+
     @property
     def fx(self) -> Effects:
         if self._fx is None:
